@@ -156,14 +156,23 @@ def probe_export():
         else:
             continue
         poisoned.append(k)
-    rows2 = _snap(flow.to_rows())
+    try:
+        rows2 = _snap(flow.to_rows())
+    except Exception:  # noqa: BLE001  (stale scratch state made the export fail: it is not reset)
+        rows2 = None
     scratch_reset = bool(poisoned) and rows2 == rows1
     # a node the DFS does not reach: are its row models emptied as well?
+    if rows2 != rows1:
+        flow = FC.from_dict(_flow_dict())       # a fresh object for the second question
+        flow.to_rows()
     lonely = flow.nodes[-1]
     lonely.initiate_row_models("t1|stale", Edge(from_="start"))
     assert lonely.get_row_models(), "initiate_row_models left no row model"
-    rows3 = _snap(flow.to_rows())
-    clears = 1 if (not lonely.get_row_models() and rows3 == rows1) else 0
+    try:
+        rows3 = _snap(flow.to_rows())
+    except Exception:  # noqa: BLE001
+        rows3 = None
+    clears = 1 if (not lonely.get_row_models() and (rows3 == rows1 or rows2 != rows1)) else 0
     # names, for the reader: what a node's clear_row_model assigns
     node_fields = []
     if hasattr(lonely, "clear_row_model"):
